@@ -45,10 +45,11 @@ func (b *bucket) delete(v interface{}, deadline time.Time) bool {
 	idx := sort.Search(len(b.data), func(i int) bool {
 		return !b.data[i].deadline.Before(deadline)
 	})
-	if idx >= len(b.data) {
-		return false
+	for ; idx < len(b.data) && !deadline.Before(b.data[idx].deadline); idx++ {
+		if b.data[idx].value == v {
+			b.data = append(b.data[:idx], b.data[idx+1:]...)
+			return true
+		}
 	}
-
-	b.data = append(b.data[:idx], b.data[idx+1:]...)
-	return true
+	return false
 }
